@@ -434,17 +434,17 @@ def failed_obligation_keys(meta, f):
 # Bounded stand-ins for ASSUMED callees (labelled bounded, never counted as proved): twin family,
 # the known-finding obligation id, and the committed list of case numbers known to fail.
 BOUNDED = {
-    "C04": [dict(family="front", args_quick=["--depth", "1"], args_thorough=["--depth", "2", "--offset", "{seed}"],
+    "C04": [dict(family="front", args_quick=["--depth", "1", "--offset", "{seed}"], args_thorough=["--depth", "2", "--offset", "{seed}"],
                  obligation="frontend/bounded-standin/front.extract",
                  known_cases="contracts/known_front_cases.txt",
-                 what="the frontend, printer and glue (swc ASTs, trait objects, symbol tables: outside Verus' dialect) through the public entry point beff_core::extract: every program `type X = E; parse.buildParsers<{X: X}>()` for E built from 36 leaf types (basic types, literals, named object/union/tuple/recursive/generic types) with one type constructor out of 45 unary and 17 binary ones (arrays, tuples, objects, mapped and conditional types, keyof, indexed access, Record/Partial/Pick/Omit/Exclude/Extract, template literals, ...) - 23949 programs in the quick tier; a second constructor on top of a thinned subset (which one depends on VERIF_SEED) in the thorough tier - 882252 programs; plus 57 hand-written + 168 generated same-name layouts multi-file / malformed / circular projects. Checked per program, as the property states it: the call returns within 20 s, does not panic or crash the process, returns generated code (emit_code Ok and non-empty) or at least one diagnostic, every diagnostic names a file of the project and a line/column/byte range inside it, and the emitted module defines every named runtype exactly once, refers only to named runtypes it defines and has a buildParsersInput entry for every requested name. NOT checked: that the emitted module loads in Node (no TypeScript compiler for the client runtime offline)"),
+                 what="the frontend, printer and glue (swc ASTs, trait objects, symbol tables: outside Verus' dialect) through the public entry point beff_core::extract: every program `type X = E; parse.buildParsers<{X: X}>()` for E built from 36 leaf types (basic types, literals, named object/union/tuple/recursive/generic types) with one type constructor out of 45 unary and 17 binary ones (arrays, tuples, objects, mapped and conditional types, keyof, indexed access, Record/Partial/Pick/Omit/Exclude/Extract, template literals, ...) - plus every third of them once more with the named types imported from another module - 31833 programs in the quick tier; a second constructor on top of a thinned subset (which one depends on VERIF_SEED) in the thorough tier - 882252 programs; plus 57 hand-written + 168 generated same-name layouts multi-file / malformed / circular projects. Checked per program, as the property states it: the call returns within 20 s, does not panic or crash the process, returns generated code (emit_code Ok and non-empty) or at least one diagnostic, every diagnostic names a file of the project and a line/column/byte range inside it, and the emitted module defines every named runtype exactly once, refers only to named runtypes it defines and has a buildParsersInput entry for every requested name. NOT checked: that the emitted module loads in Node (no TypeScript compiler for the client runtime offline)"),
             dict(family="refspanic", obligation="conversion/bounded-standin/refs.no_panic",
                  known_cases="contracts/known_refspanic_cases.txt",
                  what="convert_to_sem_type + is_subtype on named, possibly recursive types (not under contract): the 23769 questions of the `refs` family (see C05), a case fails only when the real code PANICS")],
     "C06": [dict(family="proper", obligation="proper_subtype/bounded-standin/proper.sub_vec",
                  known_cases="contracts/known_proper_cases.txt",
                  what="sub_vec_union / sub_vec_intersect / sub_vec_diff (assumed in C06; Verus rejects their labelled `continue`): reached through the public ProperSubtypeOps on all same-tag pairs of 52 proper subtypes (number lists over {1,2,3}, string lists over {a,b,c}, two typed-array kinds, allowed and excluded, booleans, diagrams), membership compared for every literal value")],
-    "C07": [dict(family="front", args_quick=["--depth", "1"], args_thorough=["--depth", "2", "--offset", "{seed}"],
+    "C07": [dict(family="front", args_quick=["--depth", "1", "--offset", "{seed}"], args_thorough=["--depth", "2", "--offset", "{seed}"],
                  obligation="frontend/bounded-standin/front.extract",
                  known_cases="contracts/known_front_cases.txt",
                  what="`contains only constructs the code generator can print`, end to end: the generated programs of C04's frontend stand-in (Exclude / Extract / keyof / indexed access / conditional types over 36 leaf types, see evidence/C04.json) must compile to a module: emit_code() neither panics nor fails, and no named runtype is defined twice"),
